@@ -821,7 +821,8 @@ def run(tier, seed):
     run_cli_load(s2, now, rng)
     suites.append(s2)
     suites.append(suite_finding(now))
-    return suites
+    from .. import extra
+    return list(suites) + [extra.suite_replay_after_removal(tier, seed)]
 
 
 def replay(payload):
